@@ -109,7 +109,8 @@ LITERALS_ANY = [_lit('12.', Decimal('12')), _lit('.5', Decimal('.5')), _lit('1.5
                 _lit('0.00000001', Decimal('0.00000001')), _lit('123456789012345678901234.5', Decimal('123456789012345678901234.5')),
                 _lit('\'a"b\'', 'a"b'), _lit('"it\'s"', "it's"), _lit("'a b'", 'a b')]
 LITERALS_2 = [_lit("'it''s'", "it's"), _lit('"q""r"', 'q"r'), _lit("'x''\"y'", 'x\'"y'), _lit("'a\nb'", 'a\nb'),
-              _lit('1e0', 1.0), _lit('2.5E-3', 0.0025), _lit('1e2', 100.0), _lit('1.5e300', 1.5e300)]
+              _lit('1e0', 1.0), _lit('2.5E-3', 0.0025), _lit('1e2', 100.0), _lit('1.5e300', 1.5e300),
+              _lit('.5e1', 5.0), _lit('.25E-2', 0.0025), _lit('5.e1', 50.0), _lit('1.5e+300', 1.5e300)]
 
 
 KEYWORD_PREFIXES = ['p', 'div', 'and', 'or', 'mod', 'eq', 'to', 'union', 'is', 'idiv', 'except', 'lt']
@@ -132,7 +133,7 @@ def gen_atom(rng, version, want='any'):
     if k < 0.7:
         return ['name', rng.choice('abc')]
     if k < 0.8:
-        return ['var', rng.choice('vw')]
+        return ['var', rng.choice(['v', 'w', 'v', 'w', 'div', 'to', 'eq', 'in', 'return', 'and', 'if', 'for'])]
     if k < 0.88:
         return ['str', rng.choice(['s', 't', ''])]
     if k < 0.93:
@@ -185,7 +186,12 @@ def tokens(node, tbl, version, rng=None, redundant=0.0):
 
     def sub(child, parent, side):
         toks = tokens(child, tbl, version, rng, redundant)
-        if need_parens(child, parent, side, tbl, version) or (rng is not None and rng.random() < redundant):
+        extra_ok = True
+        if version == '1.0' and (parent[0] == 'pred' or (parent[0] == 'bin' and tbl[parent[1]][1] == 'path' and side == 'R')):
+            # XPath 1.0: the right operand of '/' is a Step, and '(b)[1]' is a FilterExpr, not a Step: parentheses
+            # that the tree does not require would change the grammatical category there
+            extra_ok = False
+        if need_parens(child, parent, side, tbl, version) or (extra_ok and rng is not None and rng.random() < redundant):
             return ['('] + toks + [')']
         return toks
 
